@@ -42,6 +42,7 @@ type Peer struct {
 	Attached    bool
 	SnapshotFed bool
 	Purged      bool
+	Dead        bool // deactivated
 	Late        bool
 	ID          string
 }
@@ -58,6 +59,9 @@ type Runner struct {
 	Guard  Guard
 	// OnExchange, when set, is called for every recorded RPC of a peer.
 	OnExchange func(r *Runner, p *Peer, ex *world.Exchange)
+	// StepGuard rewrites schedule steps that would trigger a listed known
+	// finding (see exclusions.go); it returns the finding id.
+	StepGuard func(s Step) (Step, string)
 	// OnEdit, when set, is called after every successful local edit.
 	OnEdit func(r *Runner, p *Peer)
 	// MaxPeers bounds late attachers.
@@ -245,6 +249,12 @@ func (r *Runner) ActorsOrdered() bool {
 
 // Step executes one step.
 func (r *Runner) Step(s Step) *Failure {
+	if r.StepGuard != nil {
+		if ns, why := r.StepGuard(s); why != "" {
+			r.Ev["excluded:"+why]++
+			s = ns
+		}
+	}
 	p := r.Peers[s.Who%len(r.Peers)]
 	switch {
 	case IsEditOp(s.Op):
@@ -269,6 +279,9 @@ func (r *Runner) Step(s Step) *Failure {
 			return failf("EDITFAIL", "c%d %s: %v", p.Idx, desc, err)
 		}
 		r.Ev["edit"]++
+		if s.Op == "pset" || s.Op == "pclear" {
+			r.Ev["presence_write"]++
+		}
 		if r.OnEdit != nil {
 			r.OnEdit(r, p)
 			if r.ExFail != nil {
@@ -367,7 +380,34 @@ func (r *Runner) Step(s Step) *Failure {
 		r.Ev["detach"]++
 		r.S.WaitIdle()
 		return nil
+	case s.Op == "deactivate":
+		attached := 0
+		for _, q := range r.Peers {
+			if q.Attached {
+				attached++
+			}
+		}
+		if !p.Attached || attached <= 1 {
+			return r.Step(Step{Who: s.Who, Op: "sync"})
+		}
+		if r.Guard != nil {
+			if _, why := r.Guard(p.D, s); why != "" {
+				r.Ev["excluded:"+why]++
+				return r.Step(Step{Who: s.Who, Op: "detach"})
+			}
+		}
+		r.log("c%d: deactivate", p.Idx)
+		if err := p.C.Deactivate(r.ctx); err != nil {
+			return failf("DEACTIVATEFAIL", "c%d: %v", p.Idx, err)
+		}
+		p.Attached, p.Dead = false, true
+		r.Ev["deactivate"]++
+		r.S.WaitIdle()
+		return nil
 	case s.Op == "reattach":
+		if p.Dead {
+			return nil
+		}
 		if p.Attached {
 			return r.Step(Step{Who: s.Who, Op: "sync"})
 		}
@@ -581,6 +621,7 @@ type RunOpts struct {
 	Reverse     bool // reversed final round order
 	OnExchange  func(r *Runner, p *Peer, ex *world.Exchange)
 	OnEdit      func(r *Runner, p *Peer)
+	StepGuard   func(s Step) (Step, string)
 	AfterQuiesc func(r *Runner) *Failure
 	AttachOpts  func(i int) []interface{}
 	RecordCalls bool
@@ -593,6 +634,7 @@ func Run(p Program, o RunOpts) (res Result) {
 	r.Guard = o.Guard
 	r.OnExchange = o.OnExchange
 	r.OnEdit = o.OnEdit
+	r.StepGuard = o.StepGuard
 	r.AttachOpts = o.AttachOpts
 	defer func() {
 		res.Hist = r.Hist
